@@ -43,8 +43,11 @@ def git(args, cwd, check=True):
 
 
 def plan(tier, seed):
-    n = 12 if tier == "quick" else 600
-    return [{"seed": common.subseed(seed, "c12", i), "steps": 8 if tier == "quick" else 16} for i in range(n)]
+    n = 8 if tier == "quick" else 600
+    cases = [{"seed": common.subseed(seed, "c12", i), "steps": 8 if tier == "quick" else 16} for i in range(n)]
+    for i in range(6 if tier == "quick" else 300):
+        cases.append({"seed": common.subseed(seed, "c12d", i), "steps": 5 if tier == "quick" else 10, "directed": ["unused-package", "attic", "url-release"][i % 3]})
+    return cases
 
 
 # ------------------------------------------------------------------ universe
@@ -247,13 +250,19 @@ def run_case(case):
                 return rnd.choice(hosts) + "/nest%d" % dcount[0]
             return "d%d" % dcount[0]
         st = {"deps": [], "pkgs": {}, "commitOnBranch": rnd.random() < 0.6}
+        directed = case.get("directed")
         for i in range(rnd.choice([2, 2, 3])):
             p = "p%d" % i
             st["pkgs"][p] = []; st["deps"].append(p)
-            for j in range(rnd.choice([1, 1, 2, 3])):
-                st["pkgs"][p].append(new_scm(u, rnd, newdir(st, p)) if (i, j) != (0, 0) else new_git(u, rnd, newdir(st, p, False), "g0"))
+            for j in range(rnd.choice([1, 1, 2, 3]) if not (directed and i == 0) else rnd.choice([2, 3])):
+                if directed and i == 0:        # several git directories side by side (or nested) in one source workspace
+                    st["pkgs"][p].append(new_git(u, rnd, newdir(st, p, j > 0)))
+                else:
+                    st["pkgs"][p].append(new_scm(u, rnd, newdir(st, p)) if (i, j) != (0, 0) else new_git(u, rnd, newdir(st, p, False), "g0"))
         if rnd.random() < 0.7:
             s_ = new_url(u, rnd, newdir(st, "p1", False)); s_.pop("digestSHA256", None); st["pkgs"]["p1"].append(s_)
+        if directed == "url-release":
+            s_ = new_url(u, rnd, newdir(st, "p0", False)); s_.pop("digestSHA256", None); st["pkgs"]["p0"].append(s_)
         artefacts = []            # user artefacts
         touched = set()           # inodes of .git directories the user worked in
         counters["histories"] = 1
@@ -381,8 +390,8 @@ def run_case(case):
             return {k: (v if k not in ("url",) else os.path.relpath(v, base)) for k, v in s.items() if not k.startswith("_")}
 
         # ---------------- operations
-        def op_recipe():
-            p = rnd.choice(list(st["pkgs"]))
+        def op_recipe(force=None):
+            p = rnd.choice(list(st["pkgs"])) if force is None else force[1]
             scms = st["pkgs"][p]
             kinds = ["add"]
             if scms:
@@ -394,7 +403,7 @@ def run_case(case):
             if any(s["scm"] == "import" for s in scms):
                 kinds += ["import-url"]
             kinds += ["drop-package"] * 4 if p in st["deps"] and len(st["deps"]) > 1 else ["readd-package"] * 2
-            k = rnd.choice(kinds)
+            k = rnd.choice(kinds) if force is None else force[0]
             if k == "add" and len(scms) < 4:
                 scms.append(new_scm(u, rnd, newdir(st, p)))
             elif k == "remove":
@@ -462,12 +471,14 @@ def run_case(case):
             counters["upstream_operations"] += 1
             return "upstream:" + k
 
-        def op_user():
+        def op_user(force=None):
             cands = live_git_dirs()
+            if force is not None:
+                cands = [c_ for c_ in cands if c_[0] == force[1]]
             if not cands:
                 return None
             p, s, d = rnd.choice(cands)
-            k = rnd.choice(["dirty", "untracked", "ignored", "commit", "private-branch", "detach", "detach+commit", "untracked-dir"])
+            k = rnd.choice(["dirty", "untracked", "ignored", "commit", "private-branch", "detach", "detach+commit", "untracked-dir"]) if force is None else force[0]
             where = "%s:%s" % (p, s["dir"])
             t = u.tok()
             def reg_file(path, what):
@@ -527,17 +538,36 @@ def run_case(case):
         lastop = "init"
         KNOWN_CONTINUE = ("ignored-untracked-file-deleted-by-clean",)      # the history goes on after this one (the artefact is retired)
         fatal = lambda: any(v["mechanism"] not in KNOWN_CONTINUE for v in viol)
+        forced = []
+        if directed == "url-release":
+            # a url source without digest moves to another release (same file name), twice, with builds in between
+            forced = [("recipe", ("url-url", "p0"), ["dev"]), ("upstream", None, ["dev"]), ("recipe", ("url-url", "p0"), ["dev"])]
+        elif directed == "unused-package":
+            # user work in ONE of several git directories of p0, then the package becomes unused and sources are cleaned
+            forced = [("user", (rnd.choice(["dirty", "untracked", "commit", "private-branch", "untracked-dir", "detach+commit"]), "p0"), [rnd.choice(["dev", "dev --build-only"])] if rnd.random() < 0.5 else []),
+                      ("recipe", ("drop-package", "p0"), ["clean -s"] if rnd.random() < 0.6 else ["dev", "clean -s"]),
+                      ("recipe", ("readd-package", "p0"), ["dev"])]
+        elif directed == "attic":
+            # user work, then the SCM is re-specified so that the directory must move to the attic, then the attic is cleaned
+            forced = [("user", (rnd.choice(["dirty", "untracked", "commit", "private-branch", "untracked-dir", "detach+commit"]), "p0"), []),
+                      ("recipe", (rnd.choice(["git-url", "replace", "remove", "dir"]), "p0"), ["dev", "clean --attic"]),
+                      ("upstream", None, ["dev --clean-checkout", "clean --attic"])]
         for step in range(case["steps"]):
             if fatal():
                 break
-            kind = rnd.choice(["recipe", "recipe", "upstream", "user", "user"])
-            lab = {"recipe": op_recipe, "upstream": op_upstream, "user": op_user}[kind]()
+            fb = None
+            if forced:
+                kind, force, fb = forced.pop(0)
+                lab = {"recipe": op_recipe, "upstream": lambda force=None: op_upstream(), "user": op_user}[kind](force)
+            else:
+                kind = rnd.choice(["recipe", "recipe", "upstream", "user", "user"])
+                lab = {"recipe": op_recipe, "upstream": op_upstream, "user": op_user}[kind]()
             if lab is None:
                 continue
             trace.append(lab)
             lastop = lab
-            for _ in range(rnd.choice([1, 1, 2])):
-                b = op_bob(lab)
+            for b in (fb if fb is not None else [None] * rnd.choice([1, 1, 2])):
+                b = b or op_bob(lab)
                 before_dirs = {d for d in all_repos()}
                 r, out = bob(b.split() + (["root"] if b.startswith("dev") else ["-v"]))
                 trace.append("bob " + b + " -> rc=%d" % r.returncode)
